@@ -48,50 +48,37 @@ Theorem C20_combos_oracle : forall groups size ms2 cf kf tf out,
   combos_specb groups size ms2 cf kf tf out = true <-> combos_spec groups size ms2 cf kf tf out.
 Proof. exact combos_specb_iff. Qed.
 
-(* "The combinations are exactly the allowed ones" is FALSE of the faithful model when a chord-size filter
-   is given: PtnFilterChord.filter passes a chunk as soon as one size matches position-wise. *)
-Theorem C20_combos_exact_refuted :
+(* THE property for combinations: inside the domain (size >= 2; filter rows as wide as the combination; with a
+   column filter: keys >= 1 and all columns of the pattern and of the filter within 0..keys-1), for every
+   chord-size, column and type filter, combinations() succeeds and reports exactly the allowed sequences -
+   as a multiset: none missing, none extra (consecutive pairs of them with make_size2). *)
+Theorem C20_combos_exact : forall groups size ms2 cf kf tf,
+  wf_combos groups size cf kf tf = true ->
+  exists out, combinations groups size ms2 cf kf tf = Some out /\ combos_spec groups size ms2 cf kf tf out.
+Proof. exact combos_exact. Qed.
+
+(* History: before commit 1bc6769 PtnFilterChord.filter was numpy's element-wise `data in self.ar`.  Of that
+   OLD variant of the model the statement is FALSE (witness: chord sizes (2,1) let through by [[2,2]]), also
+   through the chord-stream template; what it computed instead is characterised exactly. *)
+Theorem C20_combos_old_exact_refuted :
   exists df v h aj gs size cf out,
     StronglySorted by_off df /\ group df v h aj = Some gs /\
     wf_combos gs size (Some cf) None None = true /\
     chord_create (In2 2 [[2; 2]]) 4 0 false = Some cf /\
-    combinations gs size false (Some cf) None None = Some out /\
+    combinations_old gs size false (Some cf) None None = Some out /\
     ~ combos_spec gs size false (Some cf) None None out.
-Proof. exact combos_exact_refuted. Qed.
+Proof. exact combos_old_exact_refuted. Qed.
 
-Theorem C20_chord_stream_refuted :
+Theorem C20_chord_stream_old_refuted :
   exists gs out,
-    template_chord_stream gs 2 2 4 false true = Some out /\ ~ chord_stream_spec gs 2 2 4 false true out.
-Proof. exact chord_stream_refuted. Qed.
+    template_chord_stream_old gs 2 2 4 false true = Some out /\ ~ chord_stream_spec gs 2 2 4 false true out.
+Proof. exact chord_stream_old_refuted. Qed.
 
-(* Inside the domain (filter rows as wide as the combination; with a column filter: keys >= 1 and all
-   columns of the pattern and of the filter within 0..keys-1) and under the guard that excludes the defect
-   class (on every run of consecutive groups the element-wise chord test agrees with row membership),
-   combinations() succeeds and reports exactly the allowed sequences - none missing, none extra. *)
-Theorem C20_combos_exact_guarded : forall groups size ms2 cf kf tf,
-  wf_combos groups size cf kf tf = true -> chord_guard cf size groups = true ->
-  exists out, combinations groups size ms2 cf kf tf = Some out /\ combos_spec groups size ms2 cf kf tf out.
-Proof. exact combos_exact_guarded. Qed.
-
-(* in particular for every column / type filter when no chord-size filter is given *)
-Theorem C20_combos_exact_no_chord_filter : forall groups size ms2 kf tf,
-  wf_combos groups size None kf tf = true ->
-  exists out, combinations groups size ms2 None kf tf = Some out /\ combos_spec groups size ms2 None kf tf out.
-Proof. exact combos_exact_no_chord_filter. Qed.
-
-(* what the code as it is reports with a chord filter: the sequences from the runs its element-wise test passes *)
-Theorem C20_combos_char : forall groups size ms2 cf kf tf,
+Theorem C20_combos_old_char : forall groups size ms2 cf kf tf,
   wf_combos groups size cf kf tf = true ->
-  exists out, combinations groups size ms2 cf kf tf = Some out /\
+  exists out, combinations_old groups size ms2 cf kf tf = Some out /\
               Permutation (concat out) (reported ms2 (passed_seqs (chord_passes cf) groups size kf tf)).
-Proof. exact combos_char. Qed.
-
-(* with the chord test repaired to row membership the property holds for every filter *)
-Theorem C20_combos_exact_repaired : forall groups size ms2 cf kf tf,
-  wf_combos groups size cf kf tf = true ->
-  exists out, combinations_with chord_filter_rows groups size ms2 cf kf tf = Some out /\
-              combos_spec groups size ms2 cf kf tf out.
-Proof. exact combos_exact_repaired. Qed.
+Proof. exact combos_old_char. Qed.
 
 (* the expected list read declaratively *)
 Theorem C20_allowed_seqs_meaning : forall groups size cf kf tf s,
